@@ -600,7 +600,9 @@ def run_c16(tier, seed, replay=None):
                          "what": "future %s embeds a wait node but is Unpin" % k})
     for r in static["regressions"]:
         findings.append({"family": "-", "trait": r[0], "kind": r[1].split("|")[0], "resource": "-", "combo": {"key": r[1]},
-                         "program": [], "what": "%s is documented as %s but no longer is" % (r[1], "Send" if r[0] == "lost_send" else "Sync")})
+                         "program": [], "what": ("%s (local flavour) is Send or Sync: it can cross threads although the no-op lock does not lock" % r[1])
+                                                if r[0] == "local_crosses_threads" else
+                                                ("%s is documented as %s but no longer is" % (r[1], "Send" if r[0] == "lost_send" else "Sync"))})
     known = [k for k in load_known() if k.get("property") == "C16" and k.get("status") == "known"]
     def is_known(g):
         for k in known:
